@@ -168,42 +168,64 @@ func init() {
 					continue
 				}
 				k := 0
-				for _, s := range sitesOf(f) {
+				wraps := p.deepSites(f, func(s Site) bool {
 					if !strings.HasSuffix(s.CalleeName(), "Error).CloneWithData") || !strings.Contains(term(s.Args()[0]), "ErrInternal") {
-						continue
+						return false
 					}
-					at := stripIface(s.Args()[len(s.Args())-1])
-					if at.Type().String() != "error" {
-						continue
-					}
+					return stripIface(s.Args()[len(s.Args())-1]).Type().String() == "error"
+				}, 2)
+				for _, ds := range wraps {
 					k++
-					ok, miss := everyDisjunctHas(p.mustHoldAt(s.Instr), []string{"^!", "errors.Is(", "ErrKeyNotFound"})
-					c.check(ok, "not-found", ver+"."+name+": internal error only after not-found was excluded", p.Pos(s.Pos()), "db.ErrKeyNotFound is classified first", "an error from the chain is wrapped as internal without first classifying db.ErrKeyNotFound (unknown blocks would be reported as internal errors): "+miss)
+					ok, miss := everyDisjunctHas(p.mustHoldDeep(ds), []string{"^!", "errors.Is(", "ErrKeyNotFound"})
+					c.check(ok, "not-found", ver+"."+name+": internal error only after not-found was excluded", p.Pos(ds.Site.Pos()), "db.ErrKeyNotFound is classified first", "an error from the chain is wrapped as internal without first classifying db.ErrKeyNotFound (unknown blocks would be reported as internal errors): "+miss)
 				}
 				if k == 0 {
 					c.und("not-found", ver+"."+name, p.Pos(fnPos(f)), "internal-error wrap not found")
 				}
-				// the not-found arm returns ErrBlockNotFound
+				// the not-found arm returns ErrBlockNotFound (in the resolver or in the helper it delegates the classification to)
 				okn := false
-				for _, ret := range returnsOf(f) {
-					if strings.HasSuffix(term(ret.Results[len(ret.Results)-1]), "ErrBlockNotFound") {
-						okn = true
+				var scan func(g *ssa.Function, d int)
+				scan = func(g *ssa.Function, d int) {
+					for _, ret := range returnsOf(g) {
+						if len(ret.Results) > 0 && strings.HasSuffix(term(ret.Results[len(ret.Results)-1]), "ErrBlockNotFound") {
+							okn = true
+						}
+					}
+					if d < 2 {
+						for _, s := range sitesOf(g) {
+							if s.Callee != nil && s.Callee.Pkg == f.Pkg && s.Callee != g && len(s.Callee.Blocks) > 0 {
+								scan(s.Callee, d+1)
+							}
+						}
 					}
 				}
+				scan(f, 0)
 				c.check(okn, "not-found", ver+"."+name+": BLOCK_NOT_FOUND", p.Pos(fnPos(f)), "unknown block → ErrBlockNotFound", "the resolver no longer returns ErrBlockNotFound")
 			}
 		}
 		// finality
 		for _, ver := range []string{"rpc/v8", "rpc/v9", "rpc/v10"} {
-			if f := p.Func(ver, "", "isL1Verified"); f != nil {
+			// anchored by role, not by name: the package-level predicate (block number, L1 head) → bool
+			var fin *ssa.Function
+			for _, g := range p.sortedFuncs() {
+				if pkgRelOf(g) != ver || g.Parent() != nil || g.Origin() != nil || g.Signature.Recv() != nil || len(g.Params) != 2 || g.Signature.Results().Len() != 1 || g.Signature.Results().At(0).Type().String() != "bool" {
+					continue
+				}
+				t0, t1 := typeShort(g.Params[0].Type()), typeShort(g.Params[1].Type())
+				if (t0 == "uint64" && strings.HasSuffix(t1, "core.L1Head")) || (t1 == "uint64" && strings.HasSuffix(t0, "core.L1Head")) {
+					fin = g
+				}
+			}
+			if f := fin; f != nil {
 				var d dnf
 				for _, ret := range returnsOf(f) {
 					b := &bform{p: p, visited: map[ssa.Value]bool{}}
 					rd := b.dnf(ret.Results[0], true, 0)
 					d = dnfOr(d, dnfAnd(b.pathCond(ret.Block, nil, f, 0), rd))
 				}
-				ok1, m1 := everyDisjunctHas(d, []string{"BlockNumber >= n)"}, []string{"^!", "BlockNumber < n)"})
-				ok2, m2 := everyDisjunctHas(d, []string{"^!", "l1", " == "}, []string{"l1", " != "})
+				// name-independent: the comparison is between the head's BlockNumber field and the other (uint64) parameter
+				ok1, m1 := everyDisjunctHas(d, []string{".BlockNumber >= "}, []string{"^!", ".BlockNumber < "})
+				ok2, m2 := everyDisjunctHas(d, []string{"^!", " == nil)"}, []string{" != nil)"}, []string{"^!", " == "}, []string{" != "})
 				c.check(ok1 && ok2 && len(d) > 0, "finality", ver+".isL1Verified", p.Pos(fnPos(f)), "true only if an L1 head exists and its block number ≥ n", "isL1Verified changed: "+m1+m2)
 			} else {
 				c.und("finality", ver+".isL1Verified", "", "anchor not found")
